@@ -12,8 +12,9 @@
 (*   drift:<clause>     the code did something the spec action does not predict       *)
 (*                                                                                    *)
 (* Every event carries the driver's observation after the call:                       *)
-(*   snap        deep snapshot of the tracked stored series (small ints)              *)
-(*   dig         digest of the deep snapshot of the whole EquationSolver.TimeSeries   *)
+(*   snap        group -> deep snapshot of the tracked stored series (small ints) and *)
+(*               of every series that was not stored when the history began ("+name") *)
+(*   dig         digest of the deep snapshot of all three holders, every series       *)
 (*   store_same  that snapshot equals the one taken after the previous call           *)
 (*   vl, vl_same BaseSolver.VariableList, and whether it equals the previous one      *)
 (*   bdig, base_same  the same for the series attributes of the BaseSolver object     *)
@@ -25,7 +26,7 @@ VARIABLES l,         \* next line of the log
           n,         \* number of the event inside the current trace
           verdict,
           obs,       \* the observation made after the previous call
-          seenG,     \* observed retrievals: [key, dig, ret]
+          seenG,     \* observed retrievals: [key, dig, out]  (out = [ok, exc, ret])
           seenT      \* observed renderings: [key, dig, tdig]
 tvars == << vars, l, n, verdict, obs, seenG, seenT >>
 
@@ -43,14 +44,21 @@ Pure(e) == /\ e.store_same /\ e.vl_same /\ e.base_same
            /\ e.snap = obs.snap /\ e.vl = obs.vl
            /\ e.dig = obs.dig /\ e.bdig = obs.bdig
 
-GetKey(e) == [name |-> e.name, c |-> EffCut(e.c, cutoff), sup |-> suppress]
+GetKey(e) == [grp |-> e.grp, name |-> e.name, c |-> EffCut(e.c, cutoff), sup |-> suppress]
+Outcome(e) == [ok |-> e.ok, exc |-> e.exc, ret |-> e.ret]
 
+(* e.stored: the name was a key of the group's holder just before the call (observed).  *)
+(* A retrieval of a name that is not stored is judged as a read (pure, repeatable: it   *)
+(* fails the same way each time); that it fails with KeyError is what the spec action   *)
+(* predicts, not something the property text fixes -> conformance.                      *)
 JudgeGet(e) ==
     IF ~Pure(e) THEN Prop("C16_ReadsArePure")
-    ELSE IF ~e.ok \/ e.ret # GetExpect(obs.snap[e.name], EffCut(e.c, cutoff), suppress)
+    ELSE IF e.stored /\ (~e.ok \/ e.ret # GetExpect(obs.snap[e.grp][e.name], EffCut(e.c, cutoff), suppress))
          THEN Prop("C16_GetValue")
-    ELSE IF \E g \in seenG : g.key = GetKey(e) /\ g.dig = obs.dig /\ g.ret # e.ret
+    ELSE IF \E g \in seenG : g.key = GetKey(e) /\ g.dig = obs.dig /\ g.out # Outcome(e)
          THEN Prop("C16_Repeatable")
+    ELSE IF ~e.stored /\ (e.ok \/ e.exc # "KeyError") THEN Drift("get_missing_keyerror")
+    ELSE IF e.stored # last'.found THEN Drift("get_found_as_spec")
     ELSE IF e.snap # store' THEN Drift("store_as_spec")
     ELSE IF e.ret # last'.vals THEN Drift("get_as_spec")
     ELSE Ok
@@ -80,9 +88,9 @@ TraceNext ==
           /\ obs' = ObsOf(e)
           /\ n' = 1 /\ verdict' = Ok /\ seenG' = {} /\ seenT' = {}
        \/ /\ e.ev = "Get"
-          /\ Get(e.name, e.c)
+          /\ Get(e.grp, e.name, e.c)
           /\ verdict' = Worse(verdict, JudgeGet(e))
-          /\ seenG' = seenG \cup { [key |-> GetKey(e), dig |-> obs.dig, ret |-> e.ret] }
+          /\ seenG' = seenG \cup { [key |-> GetKey(e), dig |-> obs.dig, out |-> Outcome(e)] }
           /\ obs' = ObsOf(e) /\ n' = n + 1 /\ UNCHANGED seenT
        \/ /\ e.ev = "MutateHeld"
           /\ MutateHeld(e.i, e.op)
@@ -99,9 +107,9 @@ TraceNext ==
           /\ verdict' = Worse(verdict, IF e.snap # store' THEN Drift("store_as_spec") ELSE Ok)
           /\ obs' = ObsOf(e) /\ n' = n + 1 /\ UNCHANGED << seenG, seenT >>
        \/ /\ e.ev = "RenderTable"
-          /\ RenderTable(e.fmt)
-          /\ verdict' = Worse(verdict, JudgeText(e, e.fmt, obs.dig, RenderOp(store, e.fmt)))
-          /\ seenT' = seenT \cup { [key |-> e.fmt, dig |-> obs.dig, tdig |-> e.tdig] }
+          /\ RenderTable(e.grp, e.fmt)
+          /\ verdict' = Worse(verdict, JudgeText(e, e.grp \o ":" \o e.fmt, obs.dig, RenderOp(store[e.grp], e.fmt)))
+          /\ seenT' = seenT \cup { [key |-> e.grp \o ":" \o e.fmt, dig |-> obs.dig, tdig |-> e.tdig] }
           /\ obs' = ObsOf(e) /\ n' = n + 1 /\ UNCHANGED seenG
        \/ /\ e.ev = "BaseCsv"
           /\ BaseCsv
